@@ -133,6 +133,10 @@ def gen_cases(ctx):
                         label = "same-name"
                 o["repeat"] = rng.choice([1, 2, 3])
                 o.pop("decor", None)
+        if i % 6 == 2 and label is None:
+            # tests of different layers that are instances of one class, in one suite
+            if worlds.shape_shared_class(rng, w):
+                label = "shared-class"
         cases.append(cw.Case(w, o, label or ""))
     return cases
 
@@ -164,6 +168,15 @@ def twice_cases(ctx):
             earlier = [j for j in range(k) if w2["layers"][j]["kind"] == "instance" and j not in worlds.closure(w2["layers"], k)]
             if l["kind"] == "instance" and earlier and rng.random() < 0.7:
                 l["bases"] = l["bases"] + [rng.choice(earlier)]
+        if i % 2 == 0:
+            # the tests name their layers by dotted-name strings (module.name), resolved anew in every run
+            from harness import corr_layers
+            for w_ in (w1, w2):
+                for k_, l in enumerate(w_["layers"]):
+                    if l["kind"] != "unit" and (not l["name"].isidentifier() or l["module"] == "wrt"):
+                        l["module"], l["name"] = "wlayers", "Z%d" % k_
+                w_["layerModules"] = True
+                corr_layers.all_by_alias(w_, "canon")
         o = {"verbose": 1}
         d1 = os.path.join(ctx.tmp, "tw%04da" % i)
         d2 = os.path.join(ctx.tmp, "tw%04db" % i)
